@@ -191,6 +191,17 @@ def check_case(ctx, case):
     ctx.sample(case)
 
 
+# no result depends on the log level: a tenth of the cases runs with the package logger at DEBUG (replayable: the flag is
+# part of the case / of the recorded witness)
+_dbg_gen, _dbg_chk = env.debug_dimension(0.1)
+gen_case = _dbg_gen(gen_case)
+check_case = _dbg_chk(check_case)
+
+# no clause depends on the map backend: a tenth of the eligible cases (integer labels, no linked edges) runs on SqliteMap
+_bk_gen, _bk_chk = build.backend_dimension(0.12)
+gen_case = _bk_gen(gen_case)
+check_case = _bk_chk(check_case)
+
 TECHNIQUE = "runtime monitoring: online invariant monitor on the live pruning state at every expansion boundary + differential sibling executions (pruned/unpruned/wide) + widening histories"
 LEVEL_TEXT = ("{Q} (quick) / {T} (thorough) generated cases; every expansion window of every real run (~10 per run, incl. non-emitting layers) is "
               "checked online for: expanded set within top-W plus ties, strict max(postponed) < min(expanded), next() only and always on the "
